@@ -33,6 +33,15 @@ double g_fret[TSG_LOG]; double g_gout[TSG_LOG][TSG_NDIM]; double g_pout[TSG_LOG]
 
 /* rule R13 (used by the quick jobs): the descent test lhs > rhs + tol as an uninterpreted predicate: any outcome */
 bool tsg_descent_fails(double lhs, double rhs){ return nondet_bool(); }
+/* rule R13: the candidate z = x0 - g*t and the term delta^2/(2t) of the test are uninterpreted; they log the step-size t they were given.
+ * The descent lemma (the test with the step-size t of the candidate implies f(candidate) <= f(x0) for a projected gradient step) is
+ * mathematics outside the verifier's reach; the contract checks its hypothesis: the t of the test is the t of the step. */
+double g_step_t; bool g_have_step;
+double tsg_step(double x0, double g, double t){ g_step_t = t; g_have_step = true; return nondet_double(); }
+double tsg_rhs_term(double delta, double t){
+  __CPROVER_assert(g_have_step && TSG_SAME(t, g_step_t), "F17 the descent test divides |delta|^2 by twice the step-size that produced the candidate it tests");
+  return nondet_double();
+}
 double cb_func(const double *x, size_t n){
   __CPROVER_assert(n == g_dims, "F17 objective sees num_dimensions entries");
   double r = nondet_double();
@@ -79,7 +88,7 @@ void h_GradientDescent_adaptive(void){
   st.adaptive_stepsize = a_step;
   g_dims = st.x_size;
   for (size_t d = 0; d < TSG_NDIM; d++) { st.x[d] = nondet_double(); g_start[d] = st.x[d]; }
-  g_nfunc = 0; g_ngrad = 0; g_nproj = 0; g_have_proj = false; g_check_grad_arg = true;
+  g_nfunc = 0; g_ngrad = 0; g_nproj = 0; g_have_proj = false; g_check_grad_arg = true; g_have_step = false;
   OptimizationStatus s = GradientDescent_adaptive(a_inc, a_dec, a_maxit, a_tol, &st);
   __CPROVER_assert(s.performed_iterations >= 0 && s.performed_iterations <= (a_maxit > 0 ? a_maxit : 0), "F17 performed_iterations <= max(max_iterations, 0)");
   __CPROVER_assert(g_nproj == s.performed_iterations, "F17 one candidate (projection + objective evaluation) per counted iteration");
